@@ -380,8 +380,8 @@ def clauses(tier, seed):
 
 
 def _pyvc_clauses():
-  from contracts import dict_contracts, resample_contracts
-  return dict_contracts.clauses() + resample_contracts.clauses()
+  from contracts import dict_contracts, pytree_contracts, resample_contracts
+  return dict_contracts.clauses() + resample_contracts.clauses() + pytree_contracts.clauses()
 
 
 MANIFEST = {
